@@ -98,12 +98,14 @@ static void one_case(op_t op, int level, MODULE_TYPE mt, int native, uint64_t N,
       if ((rng_u64(r) & 31) == 0) v = (rng_u64(r) & 1) ? ((int64_t)1 << 62) - 1 : -(((int64_t)1 << 62) - 1);
       zvec_limb(&A, l)[i] = v;
     }
+  for (uint64_t l = 0; l < as; l++) structure_words(r, (uint64_t*)zvec_limb(&A, l), N, bits);
   for (uint64_t l = 0; l < bs; l++)
     for (uint64_t i = 0; i < N; i++) {
       int64_t v = rng_sbits(r, bits);
       if ((rng_u64(r) & 31) == 0) v = (rng_u64(r) & 1) ? ((int64_t)1 << 62) - 1 : -(((int64_t)1 << 62) - 1);
       zvec_limb(&B, l)[i] = v;
     }
+  for (uint64_t l = 0; l < bs; l++) structure_words(r, (uint64_t*)zvec_limb(&B, l), N, bits);
   int64_t p = rng_sbits(r, 1 + (unsigned)rng_range(r, 0, 61));
   if (op == OP_AUTO || op == OP_BIG_AUTO) p |= 1;
   snap_t sa, sb;
@@ -201,9 +203,16 @@ static void alias_case(op_t op, MODULE_TYPE mt, int native, uint64_t N, uint64_t
   zvec_alloc(&O, N, ar == 2 ? osz : 0, osl, 8 * ((rep + 3) % 8));
   int64_t* x0 = malloc((lim ? lim : 1) * N * 8);
   for (uint64_t l = 0; l < lim; l++)
-    for (uint64_t i = 0; i < N; i++) x0[l * N + i] = zvec_limb(&X, l)[i] = rng_sbits(r, 61);
+    {
+      for (uint64_t i = 0; i < N; i++) zvec_limb(&X, l)[i] = rng_sbits(r, 61);
+      structure_words(r, (uint64_t*)zvec_limb(&X, l), N, 61);
+      memcpy(x0 + l * N, zvec_limb(&X, l), N * 8);
+    }
   for (uint64_t l = 0; l < O.size; l++)
-    for (uint64_t i = 0; i < N; i++) zvec_limb(&O, l)[i] = rng_sbits(r, 61);
+    {
+      for (uint64_t i = 0; i < N; i++) zvec_limb(&O, l)[i] = rng_sbits(r, 61);
+      structure_words(r, (uint64_t*)zvec_limb(&O, l), N, 61);
+    }
   int64_t p = rng_sbits(r, 1 + (unsigned)rng_range(r, 0, 61));
   if (op == OP_AUTO || op == OP_BIG_AUTO) p |= 1;
   snap_t so;
@@ -497,6 +506,14 @@ void run_C08(void) {
         {
           static const uint64_t CORE[][3] = {{1, 1, 1}, {2, 2, 2}, {3, 1, 2}, {1, 3, 0}, {2, 0, 3}, {0, 2, 1}, {4, 3, 4}};
           for (size_t c = 0; c < ARRAY_LEN(CORE); c++) one_case(op, 0, mt, native, N, CORE[c][0], CORE[c][1], CORE[c][2], (unsigned)c % 4, (unsigned)(c + 1) % 4, (unsigned)(c + 2) % 4, (int)(c & 1), 50);
+        }
+        // many limbs (loops over limbs that are unrolled or blocked change regime above the small box)
+        if (N <= 64 || (th && N <= 1024)) {
+          static const uint64_t BIGS[][3] = {{9, 8, 7}, {8, 9, 17}, {17, 3, 9}, {7, 16, 16}, {16, 16, 16}, {5, 12, 0}, {12, 0, 5}, {33, 32, 31}};
+          for (size_t c = 0; c < ARRAY_LEN(BIGS); c++) {
+            one_case(op, 0, mt, native, N, BIGS[c][0], BIGS[c][1], BIGS[c][2], (unsigned)c % 4, (unsigned)(c + 1) % 4, (unsigned)(c + 2) % 4, (int)(c & 1), 60);
+            if (op != OP_ZERO && (c % 3) == 0) alias_case(op, mt, native, N, BIGS[c][0], BIGS[c][1], BIGS[c][2], (int)(c & 1), (unsigned)c % 4, 60);
+          }
         }
         // full box for small N; for large N a sampled sub-box (more in thorough)
         for (uint64_t rs = 0; rs <= 4; rs++)
